@@ -143,7 +143,8 @@ Section Digest.
     MetaText.report_head k (MetaText.sel_item H (rc_audit b) false (rc_algo b) (pat_texts (pats_of c k)))
                          (rc_zone_name b) (report_prices b st).
   Definition report_text7 (c : run7) (st : run_state) (k : MetaText.report_kind) : option (list N) :=
-    option_map (fun body => report_head7 c st k ++ body) (report_body7 c st k).
+    if conv_overflow (r7_base c) st then None
+    else option_map (fun body => report_head7 c st k ++ body) (report_body7 c st k).
 
   Definition equity_ras7 (pats : list re) : option (list (list N) -> bool) :=
     match pats with [] => None | _ => Some (fun a => full_haystack_set_is_match pats (acct_str a)) end.
